@@ -967,16 +967,78 @@ func udpOOBCase(t *testing.T, id int, rep *vreport, rng *vrng, ci udpCipher, ds,
 	// A's own messages arrive intact (sizes 0 .. max)
 	max := a.GetOOBMaxSize()
 	var sentA [][]byte
-	for _, n := range []int{0, 1, 17, max / 2, max} {
-		m := append([]byte{0xAA}, rng.bytes(n)...)[:n]
+	var gotC [][]byte // the dialled side's handler (messages of the accepted session)
+	a.SetOOBHandler(func(b []byte) {
+		mu.Lock()
+		gotC = append(gotC, append([]byte(nil), b...))
+		mu.Unlock()
+	})
+	sizes := []int{0, 1, 2, 5, 11, 12, 17, 23, 24, max / 2, max - 1, max}
+	var sentC [][]byte
+	mk := func(tag byte, n int) []byte {
+		m := rng.bytes(n)
 		if n > 0 {
-			m[0] = 0xAA
+			m[0] = tag
 		}
-		sentA = append(sentA, m)
-		a.SendOOB(m)
-		time.Sleep(2 * time.Millisecond)
+		if n > 1 {
+			m[1] = byte(n)
+		}
+		return m
 	}
-	time.Sleep(60 * time.Millisecond)
+	// every size is sent (both directions) up to three times on the idle path: "any size from 0 to
+	// GetOOBMaxSize" is deliverable, a size that never arrives while its neighbours do is not "best effort"
+	msgA, msgC := map[int][]byte{}, map[int][]byte{}
+	for _, n := range sizes {
+		msgA[n], msgC[n] = mk(0xAA, n), mk(0xCC, n)
+		sentA, sentC = append(sentA, msgA[n]), append(sentC, msgC[n])
+	}
+	has := func(got [][]byte, m []byte) bool {
+		for _, g := range got {
+			if bytes.Equal(g, m) {
+				return true
+			}
+		}
+		return false
+	}
+	for attempt := 0; attempt < 3; attempt++ {
+		pending := 0
+		for _, n := range sizes {
+			mu.Lock()
+			okA, okC := has(gotA, msgA[n]), has(gotC, msgC[n])
+			mu.Unlock()
+			if !okA {
+				a.SendOOB(msgA[n])
+				pending++
+			}
+			if !okC {
+				sa.SendOOB(msgC[n])
+				pending++
+			}
+			if !okA || !okC {
+				time.Sleep(2 * time.Millisecond)
+			}
+		}
+		if pending == 0 {
+			break
+		}
+		time.Sleep(60 * time.Millisecond)
+	}
+	mu.Lock()
+	for _, n := range sizes {
+		rep.Monitors["udp_oob_every_size_deliverable"] += 2
+		if !has(gotA, msgA[n]) {
+			rep.violate("oob-size-undeliverable", fmt.Sprintf("case %d (%s, fec %d/%d): an out-of-band message of %d bytes (GetOOBMaxSize() = %d) sent three times by the dialled session on an idle loopback path never reached the accepted session's handler", id, ci.name, ds, ps, n, max), replay)
+		}
+		if !has(gotC, msgC[n]) {
+			rep.violate("oob-size-undeliverable", fmt.Sprintf("case %d (%s, fec %d/%d): an out-of-band message of %d bytes (GetOOBMaxSize() = %d) sent three times by the accepted session on an idle loopback path never reached the dialled session's handler", id, ci.name, ds, ps, n, max), replay)
+		}
+	}
+	for _, g := range gotC {
+		if !has(sentC, g) {
+			rep.violate("oob-corrupted", fmt.Sprintf("case %d (%s): the dialled session's handler received %d bytes that its peer never sent", id, ci.name, len(g)), replay)
+		}
+	}
+	mu.Unlock()
 	// conversation B on the same socket sends only out-of-band messages
 	b, _ := NewConn3(convB, l.conn.LocalAddr(), ci.mk(), ds, ps, conn)
 	defer b.Close()
@@ -1477,6 +1539,85 @@ func TestVerifUDPOOB(t *testing.T) {
 
 func udpFecs(rng *vrng) [][2]int { return [][2]int{{0, 0}, {2, 1}, {3, 2}} }
 
+// udpResetCase: a conversation reset with a half-read message.  Peer A's message is read in part,
+// then A restarts with a new conversation id (the listener closes the old session and builds the
+// replacement) and another address opens a third session; the rest of the OLD session's stream is
+// still A's first message - not bytes of the replacement or of the neighbour.
+func udpResetCase(t *testing.T, id int, rep *vreport, rng *vrng, ci udpCipher) {
+	block := ci.mk()
+	l, err := ListenWithOptions("127.0.0.1:0", block, 0, 0)
+	if err != nil {
+		t.Fatal(err)
+	}
+	defer l.Close()
+	dst := l.conn.LocalAddr().(*net.UDPAddr)
+	replay := map[string]any{"test": "TestVerifUDPListener/reset", "seed": vSeed(), "case": id, "cipher": ci.name}
+	for round := 0; round < 4; round++ {
+		a1 := udpNewPeer(uint32(0x100+round*4), 0, 0, 0xA0)
+		a2 := &udpPeer{sock: a1.sock, conv: a1.conv + 1, tag: 0xB3}
+		c := udpNewPeer(a1.conv+2, 0, 0, 0x5C)
+		head := 1 + rng.intn(40)
+		n := 600 + rng.intn(400)
+		open := func(p *udpPeer) *UDPSession {
+			p.sock.WriteToUDP(udpSeal(block, p.nextClear(rng, n), rng), dst)
+			l.SetReadDeadline(time.Now().Add(3 * time.Second))
+			s, err := l.AcceptKCP()
+			if err != nil || s.GetConv() != p.conv {
+				return nil
+			}
+			return s
+		}
+		read := func(s *UDPSession, k int) []byte {
+			buf := make([]byte, k)
+			s.SetReadDeadline(time.Now().Add(2 * time.Second))
+			m, _ := s.Read(buf)
+			return buf[:m]
+		}
+		var got [3][]byte
+		var ss [3]*UDPSession
+		ok := true
+		for i, p := range []*udpPeer{a1, a2, c} {
+			if ss[i] = open(p); ss[i] == nil {
+				rep.violate("udp-listener-missing-session", fmt.Sprintf("reset case %d (%s) round %d: the first datagram of conversation %d did not produce an accepted session", id, ci.name, round, p.conv), replay)
+				ok = false
+				break
+			}
+			got[i] = read(ss[i], head)
+		}
+		if ok {
+			for i, p := range []*udpPeer{a1, a2, c} {
+				got[i] = append(got[i], read(ss[i], 2*n)...)
+				rep.Monitors["udp_listener_reset_stream"]++
+				if !bytes.Equal(got[i], p.sent) {
+					who := [3]string{"the session closed by the reset", "the replacement session", "the neighbour's session"}[i]
+					rep.violate("udp-listener-stream-mismatch", fmt.Sprintf("reset case %d (%s) round %d: %s (conv %d) delivered %d bytes that differ from the %d its own peer sent (first difference at byte %d; %d bytes were read before the reset)", id, ci.name, round, who, p.conv, len(got[i]), len(p.sent), udpFirstDiff(got[i], p.sent), head), replay)
+				}
+			}
+		}
+		for _, s := range ss {
+			if s != nil {
+				s.Close()
+			}
+		}
+		a1.sock.Close()
+		c.sock.Close()
+		if !ok {
+			break
+		}
+	}
+	rep.Cases++
+	rep.Nontrivial++
+}
+
+func udpFirstDiff(a, b []byte) int {
+	for i := 0; i < len(a) && i < len(b); i++ {
+		if a[i] != b[i] {
+			return i
+		}
+	}
+	return min(len(a), len(b))
+}
+
 func TestVerifUDPListener(t *testing.T) {
 	rng := newRng(vSeed() ^ 0x0D9)
 	rep := newReport("UDP-listener")
@@ -1491,6 +1632,12 @@ func TestVerifUDPListener(t *testing.T) {
 				udpListenerCase(t, id, rep, rng, ci, f[0], f[1])
 				id++
 			}
+		}
+	}
+	for k, ci := range udpCiphers() {
+		if vThorough() || k%3 == 0 {
+			udpResetCase(t, id, rep, rng, ci)
+			id++
 		}
 	}
 	rep.write(t, "UDPlistener.report.json")
